@@ -16,6 +16,18 @@ type Opts struct {
 	AnyError      bool // any error class is acceptable when the model predicts an error
 	SeqEquiv      bool // absent = [], x = [x]
 	LooseMultiset bool // compare arrays as bags at every level
+	// AnyErrorOf: when both the model's and the port's error class are in
+	// this set, either is accepted (the statement does not rank them).
+	AnyErrorOf []string
+}
+
+func inSet(set []string, s string) bool {
+	for _, x := range set {
+		if x == s {
+			return true
+		}
+	}
+	return false
 }
 
 // Result of a comparison.
@@ -124,6 +136,9 @@ func Compare(o obs.Outcome, mv refeval.Value, merr *refeval.Err, op Opts) Result
 			return fail()
 		}
 		if op.AnyError || merr.Accepts(o.ErrClass) {
+			return Result{OK: true}
+		}
+		if inSet(op.AnyErrorOf, merr.Class) && inSet(op.AnyErrorOf, o.ErrClass) {
 			return Result{OK: true}
 		}
 		return fail()
